@@ -23,7 +23,7 @@ func init() {
 			"(6) input must be strictly ascending; the index entry's first key is the block's first entry and is recorded only after the block was written completely; (7) no arithmetic on 8/16-bit operands in the codecs (lengths are widened before adding); " +
 			"(8) an empty value is not a tombstone; the sstable iterator does not re-lock its own mutex.",
 		NotDecided: "DECLARED UNDECIDED: that forward iteration yields every entry exactly once and that Seek lands on the first key >= target. Both are value-level properties of cursor arithmetic (decodeCurrent does not advance the cursor, so the first entry is delivered twice; the restart and index binary searches pick the first point >= target instead of the last point <= target — both confirmed on the pinned tree). No rule here decides them; the checker's silence on them is not a verdict. Also not decided: point-lookup completeness for all data sets, behaviour under arbitrary corruption.",
-		Rules:      []func(*Ctx, *Reporter){ruleFooterCodec, ruleIndexEntryCodec, ruleBlockEntryTrace, ruleBlockTrailer, ruleSstChecksums, ruleBloomKey, ruleBloomSiblings, ruleBuilderStrictOrder, ruleIndexFirstKey, ruleNoNarrowArithmetic, ruleEmptyNotDeleted, ruleTombstoneMarker, ruleSstReentrancy},
+		Rules:      []func(*Ctx, *Reporter){ruleFooterCodec, ruleIndexEntryCodec, ruleBlockEntryTrace, ruleBlockTrailer, ruleSstChecksums, ruleBloomKey, ruleBloomSiblings, ruleBuilderStrictOrder, ruleIndexFirstKey, ruleNoNarrowArithmetic, ruleEmptyNotDeleted, ruleTombstoneMarker, ruleSstReentrancy, ruleRetainedBuffersAreFresh, ruleReaderLimitsCoverFormat},
 	})
 }
 
